@@ -124,12 +124,12 @@ pub fn ref_reject(ops: &[usize]) -> Option<Reject> {
 }
 
 #[derive(Clone, Copy, PartialEq, Debug)]
-enum T {
+pub enum T {
     Int,
     Bool,
 }
 
-fn type_of(t: &Tree, leaf_bool: u32) -> Option<T> {
+pub fn type_of(t: &Tree, leaf_bool: u32) -> Option<T> {
     match t {
         Tree::Leaf(i) => Some(if leaf_bool >> i & 1 == 1 { T::Bool } else { T::Int }),
         Tree::Bin(op, l, r) => {
